@@ -381,7 +381,8 @@ class Eval(object):
         while True:
             if cur['id'] == stop:
                 return prev
-            if cur['id'] in self._visited and self._acyclic and self.oracle is None:
+            if cur['id'] in self._visited and self._acyclic and self.oracle is None and getattr(self, 'allow_shared_arms', False):
+                # (opt-in: engine/lanecheck.py sets allow_shared_arms; the C10-C12 path enumerators rely on the exception)
                 # loop-free CFG that is a DAG, not a tree: a block shared by several arms (the common `return lhs + rhs`
                 # of the branchy scalar sadd/ssub) is simply evaluated again along the other path -- evaluation is a
                 # function of the path, and _if_convert merges the arms at the post-dominator.  Bounded (tiny functions).
